@@ -18,6 +18,7 @@ RULE = ('bytes: every opcode cell (1-byte, 0F, 0F38, 0F3A maps) x all 256 ModRM 
         'A case = the byte string or the text line (+syntax); non-trivial = the decoder accepted the bytes / the assembler returned or '
         'raised its documented ValueError (every case exercises the monitor; distinct cases are counted).')
 RULE += ' Round 6: the same bytes through a bytearray.'
+RULE += ' Round 7: numeric literals of 20 to 20000 digits, decimal and hexadecimal, as immediate and displacement in both syntaxes.'
 ASSUMPTIONS = ['the documented rejection of asm/asm_att is ValueError (raised by their p_error handlers and by asm itself)',
                'hangs are bounded by a 64-read logical bound per decode; a 20 s wall watchdog per case is inconclusive, not a violation']
 
